@@ -32,6 +32,9 @@ def check_impl(line, res):
         if not _c2.ref_sizes_ok(k, tw, b):
             return None if res == 'ERR;ERR' else 'undefined sizes processed: ' + res[:60]
         exp = hx(b) + ';' + hx(b)
+        from props.parts import one_object as OO
+        for part in res.split(';'):
+            if OO.notes_of(part): return OO.notes_of(part)
         return None if res == exp else 'round trip does not give back the block'
     if op in ('threefish.enc', 'threefish.dec'):
         k, tw, b = unhx(a[0]), unhx(a[1]), unhx(a[2])
